@@ -27,6 +27,7 @@ struct Verdict {
   bool reference_attempt = false;  // rejected because of a self / forward / unknown program reference
   int sugar_uses = 0;
   size_t ntokens = 0;
+  std::map<std::string, std::set<size_t>> arities;  // parameter counts of the definitions, by name (syntactically valid sources)
 };
 
 // apply the built-in sugar to a token vector: ID '+'/'-' INT -> RUN __INC__/__DEC__ WITH id , int END
@@ -252,6 +253,7 @@ inline Verdict judge_tokens(const std::vector<Tok> &raw) {
     std::set<std::string> seen;
     for (auto &pn : d.params)
       if (!seen.insert(pn).second) dup_param = true;
+    v.arities[d.name].insert(d.params.size());
     defs.push_back(d);
   }
   ps.P(mainb);
